@@ -721,12 +721,16 @@ func loadReal(b storage.ReadWriteBucket, m mod, tar bool) (class string, files m
 	if len(found) != 1 {
 		return "error:found/notfound inconsistent", nil
 	}
-	// every accessor must apply the same digest gate: either all succeed or all report the
-	// digest mismatch
-	fb, err := found[0].Bucket()
-	_, depErr := found[0].DepModuleKeys()
-	_, yErr := found[0].V1Beta1OrV1BufYAMLObjectData()
-	_, lErr := found[0].V1Beta1OrV1BufLockObjectData()
+	return classifyData(found[0])
+}
+
+// classifyData applies every accessor of a ModuleData: they must all apply the same digest
+// gate (either all succeed or all report the digest mismatch).
+func classifyData(md bufmodule.ModuleData) (class string, files map[string]string) {
+	fb, err := md.Bucket()
+	_, depErr := md.DepModuleKeys()
+	_, yErr := md.V1Beta1OrV1BufYAMLObjectData()
+	_, lErr := md.V1Beta1OrV1BufLockObjectData()
 	isMismatch := func(e error) bool {
 		var dm *bufmodule.DigestMismatchError
 		return e != nil && errors.As(e, &dm)
@@ -1610,6 +1614,91 @@ func partProvider(run *hx.Run, idx int, m mod, omniDatas []bufmodule.ModuleData)
 	}
 }
 
+// partWarmProvider: repeated reads through ONE provider instance.  Whatever the provider
+// remembers, a read after the cache entry was tampered with, and a read for a key that pins a
+// DIFFERENT digest for the same commit, must pass the same gate as a cold read.
+func partWarmProvider(run *hx.Run, idx int, m mod, other mod, omniDatas []bufmodule.ModuleData) {
+	c := caseCtx{run, idx, m, "warm-provider"}
+	delegate := delegateProvider{datas: map[string]bufmodule.ModuleData{}}
+	for _, d := range omniDatas {
+		delegate.datas[d.ModuleKey().CommitID().String()] = d
+	}
+	mem := storagemem.NewReadWriteBucket()
+	store := bufmodulestore.NewModuleDataStore(logger, mem, filelock.NewNopLocker())
+	prov := bufmodulecache.NewModuleDataProvider(logger, delegate, store)
+	read := func(key bufmodule.ModuleKey) (string, map[string]string) {
+		got, err := prov.GetModuleDatasForModuleKeys(ctx, []bufmodule.ModuleKey{key})
+		if err != nil {
+			return "error:" + err.Error(), nil
+		}
+		if len(got) != 1 {
+			return "miss", nil
+		}
+		return classifyData(got[0])
+	}
+	// warm the provider: miss -> delegate -> store -> value, then a second plain read
+	for pass := 0; pass < 2; pass++ {
+		class, files := read(m.key)
+		run.Eval()
+		run.Count("warm-provider:read:" + strings.SplitN(class, ":", 2)[0])
+		if class != "hit" || !sameFiles(files, m.files) {
+			c.fail("warm-provider-honest-read", fmt.Sprintf("read %d of an untouched entry through the provider: %s", pass, class), map[string]any{"pass": pass})
+			return
+		}
+	}
+	base := entryOf(mem, m)
+	restore := func() {
+		must(mem.DeleteAll(ctx, m.dirPath))
+		for p, cnt := range base {
+			must(bk.PutString(ctx, mem, m.dirPath+"/"+p, cnt))
+		}
+	}
+	for _, p := range keysOf(base) {
+		if !strings.HasPrefix(p, "files/") {
+			continue
+		}
+		for _, how := range []string{"flip", "truncate", "delete"} {
+			switch how {
+			case "flip":
+				must(bk.PutString(ctx, mem, m.dirPath+"/"+p, base[p]+"x"))
+			case "truncate":
+				must(bk.PutString(ctx, mem, m.dirPath+"/"+p, base[p][:len(base[p])/2]))
+			case "delete":
+				must(mem.Delete(ctx, m.dirPath+"/"+p))
+			}
+			entry := entryOf(mem, m)
+			class, files := read(m.key)
+			// the warm provider must answer like the model's gate on the entry as it is NOW
+			line := "load\t" + encObjs(m.files, plainTok) + "\t" + encObjs(m.sides, plainTok) + "\t" + entryEnc(m, entry)
+			run.Case(line, implLoadLine(class, files), true)
+			run.Count("warm-provider:tampered:" + strings.SplitN(class, ":", 2)[0])
+			in := map[string]any{"part": "warm-provider", "tamper": how + " " + p}
+			switch {
+			case class == "hit" && !sameFiles(files, m.files):
+				c.fail("warm-provider-served-tampered", fmt.Sprintf("after %s %s a repeated read through the same provider served content the key does not pin", how, p), in)
+			case strings.HasPrefix(class, "error:accessors-disagree"):
+				c.fail("accessor-skips-digest-check", class, in)
+			}
+			restore()
+		}
+	}
+	// same module and commit, another pinned digest: never content
+	otherDigest, err := other.key.Digest()
+	must(err)
+	myDigest, err := m.key.Digest()
+	must(err)
+	if otherDigest.String() != myDigest.String() {
+		k2, err := bufmodule.NewModuleKey(m.key.FullName(), m.key.CommitID(), func() (bufmodule.Digest, error) { return otherDigest, nil })
+		must(err)
+		class, _ := read(k2)
+		run.Eval()
+		run.Count("warm-provider:other-digest:" + strings.SplitN(class, ":", 2)[0])
+		if class == "hit" {
+			c.fail("warm-provider-served-other-digest", "a key pinning a DIFFERENT digest for the same commit was served the first key's content by the warm provider", map[string]any{"part": "warm-provider"})
+		}
+	}
+}
+
 type delegateProvider struct {
 	datas map[string]bufmodule.ModuleData
 }
@@ -1760,6 +1849,8 @@ func main() {
 				partConcurrent(run, i, m, cr, tmpRoot)
 				partProvider(run, i, m, datas)
 			}
+			partWarmProvider(run, i, mods[0], mods[1], datas)
+			partWarmProvider(run, i, mods[1], mods[0], datas)
 			if i < run.N(3, 20) {
 				for mi, m := range mods {
 					partKill(run, i, mi, m, cr, tmpRoot)
